@@ -1584,10 +1584,18 @@ class TrajectoryStore:
             # If this is a merged store, find the right file and index into the
             # right group in that file.
             if nc_files.size_index is not None:
-                file_index = bisect.bisect_left(nc_files.size_index, index + 1)
-                if file_index >= len(nc_files.size_index):
+                # Cumulative trajectory counts are taken from the files as
+                # they are now: a file opened for appending grows after it
+                # was opened.
+                size_index = list(
+                    itertools.accumulate(len(td) for td in nc_files.traj_dim)
+                )
+                file_index = bisect.bisect_left(size_index, index + 1)
+                if file_index >= len(size_index):
                     return
-                group_index = index - nc_files.size_index[file_index]
+                group_index = index
+                if file_index > 0:
+                    group_index = index - size_index[file_index - 1]
             group = nc_files.groups[fs_name][file_index]
 
             # Read data from NetCDF variables.
